@@ -53,6 +53,11 @@ fn pool() -> Vec<(&'static str, MV)> {
                 ("both'\"".into(), num(6.0)),
                 ("true".into(), s("t")),
                 ("café".into(), num(7.0)),
+                // identifiers padded with blanks: other keys than the plain names
+                (" a".into(), num(8.0)),
+                ("b ".into(), num(9.0)),
+                ("x\n".into(), num(10.0)),
+                ("\tb".into(), num(11.0)),
             ]),
         ),
     ]
